@@ -337,6 +337,8 @@ type SimNode struct {
 	Up         bool
 	StorageOps int
 	TripImg    string
+	RawState   raft.StateStorage
+	RawSnap    raft.SnapshotStorage
 }
 
 type SimOpts struct {
@@ -411,7 +413,7 @@ func (s *Sim) Boot(id uint64, dir string, inc int, boot []uint64) (*SimNode, err
 			return nil, fmt.Errorf("Bootstrap: %w", err)
 		}
 	}
-	n := &SimNode{ID: id, Inc: inc, Dir: dir, R: r, Tr: tr, FSM: fsm, Rec: rec, RawLog: rawLog}
+	n := &SimNode{ID: id, Inc: inc, Dir: dir, R: r, Tr: tr, FSM: fsm, Rec: rec, RawLog: rawLog, RawState: st, RawSnap: sn}
 	s.Net.mu.Lock()
 	s.Net.byAddr[Addr(id)] = tr
 	s.Net.mu.Unlock()
